@@ -145,6 +145,9 @@ package header
 //@   noframe
 //@   only protowire.:
 //@   callpre ExtendedHeader).Unmarshal: $arg0 == in && $arg1 == data
+// (gogoproto's Unmarshal merges into its receiver and zero-valued fields are absent from the wire: the message
+// decoded into is made here, empty - nothing of an earlier message can show through)
+//@   callpre ExtendedHeader).Unmarshal: isFresh($arg0) && $arg0.Commit == nil && $arg0.Header == nil
 //@   callpre types.CommitFromProto: $arg0 == in.Commit
 //@ func MsgID
 //@   property C16
